@@ -136,24 +136,26 @@ func (c *choicesCase) GetLowestPriorityValue() int32 {
 func (c *choicesCase) GetLowestPriorityValueOld() int32 {
 	result := int32(math.MaxInt32)
 	for _, cas := range c.elements {
-		if !cas.new && cas.value < result {
-			result = cas.value
+		if cas.oldValue < result {
+			result = cas.oldValue
 		}
 	}
 	return result
 }
 
 type choicesCaseElement struct {
-	name  string
+	name string
+	// value is the highest precedence of the branch as it results from the actual changes
 	value int32
-	new   bool
+	// oldValue is the highest precedence of the branch as stored before the actual changes
+	oldValue int32
 }
 
 func (c *choicesCaseElement) deepCopy() *choicesCaseElement {
 	return &choicesCaseElement{
-		name:  c.name,
-		value: c.value,
-		new:   c.new,
+		name:     c.name,
+		value:    c.value,
+		oldValue: c.oldValue,
 	}
 }
 
@@ -174,23 +176,21 @@ func (c *choiceCasesResolver) AddCase(name string, elements []string) *choicesCa
 	for _, e := range elements {
 		c.elementToCaseMapping[e] = name
 		c.cases[name].elements[e] = &choicesCaseElement{
-			name:  e,
-			value: int32(math.MaxInt32),
+			name:     e,
+			value:    int32(math.MaxInt32),
+			oldValue: int32(math.MaxInt32),
 		}
 	}
 	return c.cases[name]
 }
 
-// SetValue Sets the priority value that the given elements with its entire branch has calculated
-func (c *choiceCasesResolver) SetValue(elemName string, v int32, new bool) {
-	// math.MaxInt32 indicates that the branch is not populated,
-	// so we skip adding it
-	if v == math.MaxInt32 {
-		return
-	}
+// SetValue Sets the priority value that the given elements with its entire branch has calculated.
+// v is the value resulting from the actual changes, oldV the value that was stored before them.
+// math.MaxInt32 indicates that the branch is not populated.
+func (c *choiceCasesResolver) SetValue(elemName string, v int32, oldV int32) {
 	actualCase := c.elementToCaseMapping[elemName]
 	c.cases[actualCase].elements[elemName].value = v
-	c.cases[actualCase].elements[elemName].new = new
+	c.cases[actualCase].elements[elemName].oldValue = oldV
 }
 
 // GetBestCaseName returns the name of the case, that has the highes priority
@@ -229,7 +229,7 @@ func (c *choiceCasesResolver) getOldPopulatedElementNames(caseName string) []str
 	}
 	result := make([]string, 0, len(cas.elements))
 	for name, elem := range cas.elements {
-		if !elem.new && elem.value != math.MaxInt32 {
+		if elem.oldValue != math.MaxInt32 {
 			result = append(result, name)
 		}
 	}
